@@ -69,6 +69,10 @@ type MTarget struct {
 	// MemParam: the function works on reference slices without a struct that owns the backing
 	// array (typed.Uint16Ref.Update): the array is an explicit first parameter `mem` and result.
 	MemParam bool
+	// NilRecZero: a nil POINTER to a represented struct in a value position (`return nil, err`)
+	// is the zero record (for constructors that return (*T, error): the value is meaningless
+	// when the error is not nil, and callers test the error first).
+	NilRecZero bool
 }
 
 // MFile: one generated file.
@@ -351,7 +355,7 @@ func (g *mgen) prepareStruct(r *StructRep) {
 		case "ref":
 			r.fields = append(r.fields, fieldRep{f.Name(), "ref", gty{kind: "ref"}})
 		case "":
-			if f.Embedded() {
+			if f.Embedded() && !r.embedOK(f.Name()) {
 				failf("%s: embedded field %s is outside the subset (ignore it)", r.Type, f.Name())
 			}
 			r.fields = append(r.fields, fieldRep{f.Name(), "", g.gtype(f.Type(), r.Type+"."+f.Name())})
@@ -364,6 +368,18 @@ func (g *mgen) prepareStruct(r *StructRep) {
 			failf("%s has no field %s", r.Type, k)
 		}
 	}
+}
+
+// embedOK: an embedded field is represented (as an ordinary field named after its type) only
+// when the configuration names it in Only; selectors of promoted FIELDS are then written out
+// as the field path (mctx.path).  Promoted methods stay outside the subset.
+func (r *StructRep) embedOK(name string) bool {
+	for _, n := range r.Only {
+		if n == name {
+			return true
+		}
+	}
+	return false
 }
 
 func (r *StructRep) field(name string) *fieldRep {
@@ -653,6 +669,7 @@ type mctx struct {
 	binds  []bind
 	tmp    int
 	inLoop []string // loop-state tuple while translating a loop body (nil outside)
+	loopEnd func() string // what the end of the innermost loop body yields (target of `continue`)
 	// loopRet: the loop being translated contains `return` (go_for_ret): the body yields
 	// inl state | inr result
 	loopRet bool
@@ -748,6 +765,9 @@ func (c *mctx) exprAs(e ast.Expr, want gty) string {
 	if isNilIdent(e) {
 		switch want.kind {
 		case "bytes", "ref", "err", "sset", "list":
+			return want.zero()
+		}
+		if want.kind == "rec" && c.tg.NilRecZero {
 			return want.zero()
 		}
 		failf("%s: nil where a %s is expected", c.pos(e), want.kind)
@@ -933,7 +953,27 @@ func (c *mctx) path(e ast.Expr) (string, []pathStep, bool) {
 			return "", nil, false
 		}
 		if len(sel.Index()) != 1 {
-			failf("%s: promoted field %q is outside the subset", c.pos(e), c.src(e))
+			// promoted field: the path through the embedded fields, each of which must be
+			// represented (StructRep.embedOK)
+			cur := c.tyOf(x.X)
+			tp := c.info.Types[x.X].Type
+			for _, fi := range sel.Index() {
+				if pt, ok := tp.Underlying().(*types.Pointer); ok {
+					tp = pt.Elem()
+				}
+				st, ok := tp.Underlying().(*types.Struct)
+				if !ok || cur.kind != "rec" {
+					failf("%s: promoted field %q is outside the subset", c.pos(e), c.src(e))
+				}
+				fld := st.Field(fi)
+				f := cur.rec.field(fld.Name())
+				if f == nil {
+					failf("%s: promoted field %q: %s.%s is not represented", c.pos(e), c.src(e), cur.rec.Type, fld.Name())
+				}
+				steps = append(steps, pathStep{cur.rec, f})
+				tp, cur = fld.Type(), f.ty
+			}
+			return root, steps, true
 		}
 		bt := c.tyOf(x.X)
 		if bt.kind != "rec" {
@@ -1409,6 +1449,7 @@ func (c *mctx) callN(x *ast.CallExpr) []string {
 	// resolved callee
 	var fn *types.Func
 	var recvExpr ast.Expr
+	recvStr := ""
 	switch f := x.Fun.(type) {
 	case *ast.Ident:
 		fn, _ = c.info.Uses[f].(*types.Func)
@@ -1417,7 +1458,32 @@ func (c *mctx) callN(x *ast.CallExpr) []string {
 		if fn != nil && fn.Type().(*types.Signature).Recv() != nil {
 			recvExpr = f.X
 			if sel, ok := c.info.Selections[f]; ok && len(sel.Index()) != 1 {
-				failf("%s: call of promoted method %q is outside the subset", c.pos(e), c.src(e))
+				// promoted method: the receiver is the embedded field (path through represented
+				// embedded fields, StructRep.embedOK); only for callees that do not mutate it
+				root, steps, ok := c.path(f.X)
+				if !ok {
+					failf("%s: call of promoted method %q is outside the subset", c.pos(e), c.src(e))
+				}
+				cur := c.tyOf(f.X)
+				tp := c.info.Types[f.X].Type
+				idx := sel.Index()
+				for _, fi := range idx[:len(idx)-1] {
+					if pt, ok := tp.Underlying().(*types.Pointer); ok {
+						tp = pt.Elem()
+					}
+					st, ok := tp.Underlying().(*types.Struct)
+					if !ok || cur.kind != "rec" {
+						failf("%s: call of promoted method %q is outside the subset", c.pos(e), c.src(e))
+					}
+					fld := st.Field(fi)
+					fr := cur.rec.field(fld.Name())
+					if fr == nil {
+						failf("%s: promoted method %q: %s.%s is not represented", c.pos(e), c.src(e), cur.rec.Type, fld.Name())
+					}
+					steps = append(steps, pathStep{cur.rec, fr})
+					tp, cur = fld.Type(), fr.ty
+				}
+				recvStr = pathGet(mIdent(root), steps)
 			}
 		}
 	}
@@ -1446,7 +1512,14 @@ func (c *mctx) callN(x *ast.CallExpr) []string {
 		mem, _ := c.memOwner(e)
 		args = append(args, mem)
 	}
-	if recvExpr != nil {
+	if recvStr != "" {
+		for _, m := range em.muts {
+			if m == "recv" {
+				failf("%s: promoted method %q mutates its receiver: outside the subset", c.pos(e), c.src(e))
+			}
+		}
+		args = append(args, recvStr)
+	} else if recvExpr != nil {
 		args = append(args, c.expr(recvExpr))
 	}
 	sigc := fn.Type().(*types.Signature)
@@ -1653,6 +1726,12 @@ func (c *mctx) stmts(list []ast.Stmt, k func() string) string {
 		return c.forStmt(x, tail)
 	case *ast.RangeStmt:
 		return c.rangeStmt(x, tail)
+	case *ast.BranchStmt:
+		// `continue` of the innermost counted / range loop: the rest of the body is skipped, the
+		// loop goes on with the state as it is now
+		if x.Tok == token.CONTINUE && x.Label == nil && c.inLoop != nil && c.loopEnd != nil {
+			return c.loopEnd()
+		}
 	}
 	failf("%s: unsupported statement %q in %s", c.pos(s), c.src(s), c.tg.Func)
 	return ""
@@ -2024,6 +2103,9 @@ func (c *mctx) loopState(body *ast.BlockStmt, loopVars map[types.Object]bool, ha
 		case *ast.IncDecStmt:
 			add(rootIdent(x.X))
 		case *ast.BranchStmt:
+			if x.Tok == token.CONTINUE && x.Label == nil {
+				return true // = the end of the loop body (stmts: the loop's end continuation)
+			}
 			failf("%s: %s inside a loop is outside the subset", c.pos(n), x.Tok)
 		case *ast.ReturnStmt:
 			if len(hasRet) == 0 || c.inLoop != nil {
@@ -2137,11 +2219,14 @@ func (c *mctx) loopBody(body *ast.BlockStmt, state []string, ret ...bool) string
 		c.inLoop = []string{}
 	}
 	c.loopRet = len(ret) > 0 && ret[0]
-	defer func() { c.inLoop, c.loopRet = saved, savedRet }()
+	savedEnd := c.loopEnd
+	defer func() { c.inLoop, c.loopRet, c.loopEnd = saved, savedRet, savedEnd }()
 	if c.loopRet {
-		return c.stmts(body.List, func() string { return "Some (inl " + tuple(state) + ")" })
+		c.loopEnd = func() string { return "Some (inl " + tuple(state) + ")" }
+	} else {
+		c.loopEnd = func() string { return "Some " + tuple(state) }
 	}
-	return c.stmts(body.List, func() string { return "Some " + tuple(state) })
+	return c.stmts(body.List, c.loopEnd)
 }
 
 func (c *mctx) forStmt(x *ast.ForStmt, tail func() string) string {
